@@ -37,6 +37,14 @@ def gen_intervals(ctx):
             w = ulps(2.0 ** k, d)
             for lo in (0.0, 2.0 ** k, -(2.0 ** k), 3 * 2.0 ** (k - 2), R.randint(-9, 9) * 2.0 ** (k - 1)):
                 out.append(("pow2edge", lo, lo + w))
+    for _ in range(ctx.scale(600, 6000)):                       # lower (or upper) end a hair below / above a grid line of the snapped width
+        k = R.randint(-20, 30)
+        g = 2.0 ** k
+        m = R.randint(-12, 12)
+        eps = g * 2.0 ** -R.choice([20, 30, 35, 40, 44, 48])
+        lo = m * g - eps if R.random() < 0.7 else m * g + eps
+        w = g * R.choice([0.25, 0.5, 0.75, 1.0, 1.5, 0.0])
+        out.append(("nearline", lo, lo + w))
     for _ in range(ctx.scale(300, 3000)):                       # single points
         v = R.choice([0.0, 1.0, -1.0, 0.5, R.randint(-10**6, 10**6) / 8.0, (R.random() - 0.5) * 2.0 ** R.randint(-30, 40)])
         out.append(("point", v, v))
